@@ -9,12 +9,20 @@ PROP_ID = "C06"
 DESIGN_REF = "6/C06"
 KINDS = {"date": XmlDate, "time": XmlTime, "datetime": XmlDateTime}
 TRUSTED = [
-    "CPython int(), str.strip(), str.isdigit(), f-string integer formatting are modelled by hand (Py/Basic.lean) and compared through ops py.int/date.args",
+    "CPython int() on ASCII digit runs, str.strip(), str.isdigit(), f-string integer formatting are modelled by hand (Py/Basic.lean) and compared through ops py.int/date.args",
     "Unicode tables come from the interpreter that runs xsdata (unicodedata), regenerated each run",
-    "XSD 1.1 Part 2 lexical grammars of date/time/dateTime in Spec/XsdDate.lean are my transcription",
+    "XSD 1.1 Part 2 lexical grammars and lexical mappings of date/time/dateTime/g*/duration in Spec/XsdDate.lean are my transcription "
+    "(duration seconds as in the pattern of §3.3.6.2, [0-9]+(\\.[0-9]+)?; the plug-in's oracle regexes are a second, independent transcription)",
+    "xml_duration_re is modelled by hand (Lex/Period.lean: optGroup/optSeconds/matchBody), tied to re by op dur.parse",
+    "the standard library's date/time/datetime/timezone/timedelta are modelled as records with the range checks, the C-int conversion and the "
+    "timedelta/timezone limits of CPython (Lex/Stdlib.lean), tied to the real objects by ops date.to_std/date.from_std",
 ]
 ASSUMPTIONS = [
-    "a missing timezone is read as UTC when comparing (the property does not fix this; the code does the same)",
+    "a missing timezone is read as UTC when comparing and when taking the instant of a naive datetime (the property does not fix this; the code does the same)",
+    "24:00:00 keeps hour 24 as its component; that it is the first instant of the next day is theorem timeline_end_of_day",
+    "'preserve the instant' is claimed where the target type can hold the value: to_* for year 1..9999, no 24:00:00, |offset| < 24 h, exact down to "
+    "the microsecond (the deviation fractional_second % 1000 ns is proved exactly); from_* for utcoffsets that are whole minutes (the deviation utcoffset % 1 min is proved exactly)",
+    "xs:duration seconds are compared as the matched decimal text; the code hands that text to float()",
 ]
 
 # ----------------------------------------------------------------- impl side
@@ -1260,12 +1268,22 @@ ORACLES = [
 FINDINGS = {}
 
 LEVEL_TEXT = (
-    "Lean theorems over all strings / all values for the date-time scanner, validators and formatters "
-    "(reject_unreal_* for every string and every Unicode environment; more in Props/C06.lean), "
-    "with the model tied to /repo by a differential check of from_string/__str__/parse_date_args/int() "
-    "on hand-picked, boundary-exhaustive and mutated inputs."
+    "Lean theorems over all strings / all values, every Unicode environment: (acceptance) every XSD-valid lexical form of date/time/dateTime "
+    "(Spec/XsdDate.lean: signed >=4-digit years incl. -0000, every calendar day, 24:00:00(.0+), 1-9 fraction digits, Z and every +-hh:mm up to 14:00, "
+    "XSD white space around) parses to exactly the components XSD assigns (parse_accepts_valid_*; a 10th fraction digit is refused); likewise the five g* "
+    "shapes through XmlPeriod's dispatcher (period_accepts_g*) and xs:duration for every combination of components, sign and fractional seconds "
+    "(duration_accepts_valid, duration_format_parse); (rejection) whatever from_string/XmlPeriod accept is a real calendar date / time of day "
+    "(reject_unreal_*); (round trip) str() of every valid value parses back to it (*_format_parse); (timeline) the comparison key orders and "
+    "identifies values exactly as the calendar does (days_from_civil_*, datetime_key_*, timeline_end_of_day, timeline_offset); (standard library) "
+    "to_datetime/to_time/to_date succeed exactly on the stated region, move the instant by exactly fractional_second % 1000 ns, from_* by exactly "
+    "utcoffset % 1 min, and the two directions are inverse where representable (to_datetime_ok_iff, to_datetime_instant, from_to_datetime, "
+    "from_datetime_instant, to_from_datetime, from_datetime_shape, and the XmlTime/XmlDate counterparts). The model is tied to the code by a "
+    "differential check of from_string/__str__/parse_date_args/int()/XmlPeriod/XmlDuration/_cmp/days_from_civil/to_*/from_* on hand-picked, "
+    "bounded-exhaustive, grammar-drawn and mutated inputs; the property's own oracles are swept on the implementation on every run."
 )
 LEVEL_NOTE = (
-    "Trusted: Lean kernel; hand model of CPython int()/strip/isdigit/format; XSD lexical grammar transcription; "
-    "the sampling correspondence check. datetime stdlib conversions are not modelled."
+    "Trusted: Lean kernel; hand models of CPython int()/strip/isdigit/format, of the duration regular expression and of the datetime constructors; "
+    "the XSD grammar transcription; the sampling correspondence check. Not modelled: XmlDate/XmlPeriod/XmlDuration ordering (tuple / string order, "
+    "outside the statement), __hash__, replace(), now()/utcnow() beyond the shape of from_datetime results (the clock is not compared), "
+    "converter.py's strptime-based DateTimeConverter for stdlib types with a format."
 )
